@@ -300,9 +300,9 @@ SITE_RULES = [
      "second component of util::decode_content: a &'static str format label"),
     ("mdk-core/src/welcomes.rs", None, "format", r"match decode_content\([^)]*\)\s*\{\s*Ok\(\(\w+, format\)\)", "const",
      "second component of util::decode_content: a &'static str format label"),
-    ("mdk-core/src/lib.rs", "build", "pruned_count", r"Ok\(pruned_count\)\s*=\s*self\.storage\.prune_expired_snapshots", "count",
+    ("mdk-core/src/lib.rs", None, "pruned_count", r"Ok\(pruned_count\)\s*=\s*self\.storage\.prune_expired_snapshots|prune_expired_snapshots\([^()]*\)\s*\{\s*Ok\(pruned_count\)", "count",
      "number of pruned snapshots (usize)"),
-    ("mdk-core/src/lib.rs", "build", "self.config.snapshot_ttl_seconds", r"snapshot_ttl_seconds", "number", "u64 configuration value"),
+    ("mdk-core/src/lib.rs", None, "self.config.snapshot_ttl_seconds", r"snapshot_ttl_seconds", "number", "u64 configuration value"),
     ("mdk-sqlite-storage/src/migrations.rs", "run_migrations", "migration.name()", r"report\.applied_migrations\(\)", "const",
      "name of an embedded refinery migration file"),
     ("mdk-core/src/messages/validation.rs", "validate_proposal_identity", "sender_leaf_index", r"member_at\(sender_leaf_index\)", "number",
@@ -322,11 +322,13 @@ SITE_RULES += [
 # peer-/caller-supplied PUBLIC input back in an error text (tag values of public key-package events, imeta fields of
 # the message being parsed, MIME labels, enum labels); none of them is one of the protected values by construction.
 FN_RULES = [
-    ("mdk-core/src/key_packages.rs", r"^(validate_\w+|parse_serialized_key_package)$", r"^(values(\s*\.get\(1\))?|ext_value|relay_url_str|name|label)$", "publicMeta",
+    ("mdk-core/src/key_packages.rs", r"^(validate_\w+|parse_serialized_key_package)$", r"^((values|tag(\.as_slice\(\))?)(\s*\.get\(1\))?|ext_value|relay_url_str|name|label)$", "publicMeta",
      "tag name / tag value of a public key-package event (kind 443), echoed in the validation error"),
     ("mdk-core/src/key_packages.rs", r"^validate_extensions_tag$", r"^match u16::from\(\*required_ext\) \{.*$", "const", "literal extension names"),
     ("mdk-core/src/encrypted_media/manager.rs", r"^parse_imeta_tag$", r"^parts\[1\]$", "publicMeta",
      "MIME / filename field of the imeta tag being parsed (only the `m` and `filename` arms echo it)"),
+    ("mdk-core/src/encrypted_media/manager.rs", r"^parse_imeta_tag$", r"^imeta_tag$", "publicMeta",
+     "the imeta tag being parsed (a part of it is echoed only by the `m` and `filename` arms)"),
     ("mdk-core/src/encrypted_media/manager.rs", r"^parse_imeta_tag$", r"^version$", "publicMeta", "imeta version label"),
     ("mdk-core/src/media_processing/validation.rs", r".*", r"^(normalized\.split\(';'\)\.next\(\)|img_reader \.format\(\)|validate_(group_image_)?mime_type\(claimed_mime_type\)\?|detect_mime_type_from_data\(data\)\?)$", "publicMeta",
      "MIME type label (claimed or detected)"),
@@ -362,11 +364,136 @@ def strip_expr(e):
     return re.sub(r"\s+", " ", e)
 
 
+def chain_start(src, end):
+    """start of the postfix expression (`a.b(c)?.d[e]`, `&x.y`, `Path::f(a).g()`) that ends just before src[end]"""
+    j = end - 1
+    while j >= 0:
+        c = src[j]
+        if c.isspace():
+            # whitespace inside a method chain (`foo\n    .bar()`) continues it; otherwise the expression starts here
+            k = j
+            while k >= 0 and src[k].isspace():
+                k -= 1
+            nxt = src[j + 1:end + 1].lstrip()[:1]
+            if k >= 0 and (nxt == "." or src[k] == "."):
+                j = k; continue
+            break
+        if c in ")]":
+            depth = 0
+            while j >= 0:
+                if src[j] in ")]": depth += 1
+                elif src[j] in "([":
+                    depth -= 1
+                    if depth == 0: break
+                elif src[j] == '"':
+                    j -= 1
+                    while j > 0 and not (src[j] == '"' and src[j - 1] != "\\"):
+                        j -= 1
+                j -= 1
+            j -= 1; continue
+        if c.isalnum() or c in "_.?:":
+            j -= 1; continue
+        if c in "&*" :
+            j -= 1; continue
+        break
+    return j + 1
+
+
+def enclosing_match_scrutinee(head, pos):
+    """the scrutinee of the innermost `match … {` whose block contains position pos of head (or None)"""
+    depth, j = 0, pos - 1
+    while j >= 0:
+        c = head[j]
+        if c == "}": depth += 1
+        elif c == "{":
+            if depth == 0:
+                m = re.search(r"\bmatch\s+((?:[^{};]|\{[^{}]*\})+?)\s*$", head[:j])
+                if m:
+                    return m.group(1).strip()
+                # a block that is not a match block (an arm body, an if): keep looking outwards
+            else:
+                depth -= 1
+        elif c == '"':
+            j -= 1
+            while j > 0 and not (head[j] == '"' and head[j - 1] != "\\"):
+                j -= 1
+        j -= 1
+    return None
+
+
+ELEMENT_ADAPTORS = r"(map|for_each|find|find_map|filter|filter_map|all|any|and_then|is_none_or|is_some_and|inspect|flat_map|position|take_while|skip_while|max_by_key|min_by_key)"
+ERR_ADAPTORS = r"(map_err|unwrap_or_else|or_else|inspect_err)"
+
+
+def pattern_bindings(fn_src, head, ident):
+    """[(position, 'from', expression)] for every pattern in `head` that binds `ident` to a PART of the value of an
+    expression: `let PAT = E [else]`, `if let PAT = E`, `while let PAT = E`, `for PAT in E`, a match arm `PAT =>` (E = the
+    scrutinee), a closure parameter of an element adaptor (`E.map(|PAT| …)`: E = the receiver).  `Err(ident)` patterns and
+    closures of error adaptors are left to the `err` rule."""
+    I = re.escape(ident)
+    res = []
+    in_pat = r"(?:[^=;{}|]*[(\[{,&\s])?(?:ref\s+|mut\s+)*" + I + r"(?![\w])(?:\s*@[^,)]*)?(?:[\s,)\]}][^=;{|]*)?"
+    # let / if let / while let with a destructuring pattern (a plain `let ident =` is handled by the `let` rule)
+    for m in re.finditer(r"\b(?:let|if\s+let|while\s+let)\s+(" + in_pat + r")=(?!=)\s*", head):
+        pat = m.group(1).strip()
+        if re.fullmatch(r"(mut\s+)?" + I + r"(\s*:[^=]*)?", pat) or re.search(r"\bErr\s*\(\s*(ref\s+)?" + I + r"\s*\)", pat):
+            continue
+        if not re.search(r"[(\[{]", pat):
+            continue
+        j, depth = m.end(), 0
+        while j < len(fn_src):
+            c = fn_src[j]
+            if c == '"':
+                j += 1
+                while j < len(fn_src) and fn_src[j] != '"':
+                    j += 2 if fn_src[j] == "\\" else 1
+            elif c in "([": depth += 1
+            elif c in ")]": depth -= 1
+            elif depth == 0 and (c in ";{" or fn_src.startswith("else", j) and fn_src[j - 1].isspace()): break
+            j += 1
+        res.append((m.start(), "from", re.sub(r"\s+", " ", fn_src[m.end():j].strip())))
+    for m in re.finditer(r"\bfor\s+(" + in_pat + r")\s+in\s+", head):
+        j, depth = m.end(), 0
+        while j < len(fn_src):
+            c = fn_src[j]
+            if c in "([": depth += 1
+            elif c in ")]": depth -= 1
+            elif c == "{" and depth == 0: break
+            j += 1
+        res.append((m.start(), "from", re.sub(r"\s+", " ", fn_src[m.end():j].strip())))
+    # match arms: `ident =>` (the whole scrutinee) or `Some(ident) =>`, `(a, ident) =>`, `Variant { ident, .. } =>` (a part of it)
+    use_ = r"(?<![\w.])" + I + r"(?![\w])"
+    arm_pat = (r"(?:[A-Za-z_][\w:]*\s*)?(?:\((?:[^=;{}]|\{[^{}]*\})*?" + use_ + r"(?:[^=;{}]|\{[^{}]*\})*?\)"
+               r"|\{[^=;{}()]*?" + use_ + r"[^=;{}()]*?\}|\[[^=;{}]*?" + use_ + r"[^=;{}]*?\])")
+    for m in re.finditer(r"(?:(?<=[{},(|\s])|^)(" + arm_pat + r"|" + I + r")\s*(?:if\b[^=>]*(?:=[^>][^=>]*)*)?=>", head):
+        pat = m.group(1)
+        if re.search(r"\bErr\s*\(\s*(ref\s+)?" + I + r"\s*\)", pat):
+            continue
+        if pat != ident and re.search(r"(^|_)(e|err|error|other)$", ident) and re.match(r"[A-Z]\w*(::[A-Z]\w*)+\s*\(", pat):
+            continue                                  # `Error::Variant(e) =>`: the `err` rule
+        scrut = enclosing_match_scrutinee(head, m.start())
+        if scrut:
+            res.append((m.start(), "from", re.sub(r"\s+", " ", scrut)))
+    # closure parameters of element adaptors
+    for m in re.finditer(r"\.\s*" + ELEMENT_ADAPTORS + r"\s*(?:::\s*<[^>]*>\s*)?\(\s*(?:move\s+)?\|([^|]*)\|", head):
+        if not re.search(r"(?<![\w.])" + I + r"(?![\w])", re.sub(r":[^,|]*", "", m.group(2))):
+            continue
+        st = chain_start(head, m.start())
+        recv = head[st:m.start()].strip()
+        if recv:
+            res.append((m.start(), "from", re.sub(r"\s+", " ", recv)))
+    return res
+
+
 def local_binding(fn_src, ident, before):
-    """how a local identifier was introduced, from the text of the enclosing function before the use"""
+    """how a local identifier was introduced, from the text of the enclosing function before the use
+    → (kind, payload, position of the binding in fn_src)"""
     head = fn_src[:before]
     I = re.escape(ident)
     cands = []
+    for pos_, kind_, expr_ in pattern_bindings(fn_src, head, ident):
+        if expr_ and not re.fullmatch(r"(?:&\s*)?(?:mut\s+)?" + I, expr_):
+            cands.append((pos_, "let", expr_))
     for m in re.finditer(r"(?<![\w\.])" + I + r"\s*:\s*([^,=;)\n{|]+)", head):
         t = m.group(1).strip()
         if t and re.match(r"^[&A-Za-z_\[(]", t) and not head[:m.start()].rstrip().endswith("{"):
@@ -379,7 +506,8 @@ def local_binding(fn_src, ident, before):
         for m in re.finditer(r"\b[A-Z]\w*(?:::[A-Z]\w*)+\s*\(\s*" + I + r"\s*\)[\s)]*(=>|\|)", head):
             cands.append((m.start(), "err", None))
         for m in re.finditer(r"(?<![\w\.])" + I + r"\s*=>", head):
-            cands.append((m.start(), "err", None))
+            if not enclosing_match_scrutinee(head, m.start()):
+                cands.append((m.start(), "err", None))
     for m in re.finditer(r"\bErr\(\s*(ref\s+)?" + I + r"\s*\)", head):
         cands.append((m.start(), "err", None))
     for m in re.finditer(r"\|\s*" + I + r"\s*(:\s*([^|]+))?\|", head):
@@ -389,7 +517,7 @@ def local_binding(fn_src, ident, before):
             pre = head[:m.start()].rstrip()
             if re.search(r"(map_err|unwrap_or_else|or_else|inspect_err)\($", pre):
                 cands.append((m.start(), "err", None))
-            else:
+            elif not any(c_[0] == m.start() or abs(c_[0] - m.start()) < 40 and c_[1] == "let" for c_ in cands):
                 cands.append((m.start(), "closure", None))
     for m in re.finditer(r"\blet\s+(mut\s+)?" + I + r"\s*(:\s*[^=;]+)?=\s*", head):
         # initialiser up to the terminating `;` at nesting depth 0
@@ -410,8 +538,8 @@ def local_binding(fn_src, ident, before):
             cands.append((m.start(), "let", re.sub(r"\s+", " ", fn_src[m.end():j].strip())))
     if not cands:
         return None
-    cands.sort()
-    return cands[-1][1:]
+    cands.sort(key=lambda c_: (c_[0], 0 if c_[1] == "closure" else 1))
+    return cands[-1][1:] + (cands[-1][0],)
 
 
 def type_class(t, ctx):
@@ -421,6 +549,12 @@ def type_class(t, ctx):
         cls, why = type_class(m.group(3), ctx)
         if cls in ("number", "eventId", "pubkey", "publicMeta", "const", "redacted", "groupId"):
             return cls, f"container of {m.group(3)}: {why}"
+    m = re.match(r"^&?(mut )?\[\s*([^;\]]+?)\s*(;[^\]]*)?\]$", t)
+    if m:
+        # a slice / array has the class of its elements — except byte (integer) arrays, which are ids / keys, not numbers
+        cls, why = type_class(m.group(2), ctx)
+        if cls in ("eventId", "pubkey", "publicMeta", "const", "redacted", "groupId"):
+            return cls, f"slice of {m.group(2)}: {why}"
     if re.match(r"^&?(mut )?(nostr::)?RelayUrl$", t):
         used("type RelayUrl → publicMeta (relay URLs are not one of the protected kinds)")
         return "publicMeta", "relay URL"
@@ -451,12 +585,134 @@ def type_class(t, ctx):
     return "unknown", f"type {t} has no rule"
 
 
+def fn_header_end(fn_src):
+    """index of the `{` that opens the body of the function whose text starts fn_src"""
+    depth = 0
+    for j, c in enumerate(fn_src):
+        if c in "([": depth += 1
+        elif c in ")]": depth -= 1
+        elif c == "{" and depth == 0: return j
+    return len(fn_src)
+
+
+def callable_only_in_crate(src, fn_start):
+    """true for a fn that is not `pub` (private, pub(crate), pub(super), pub(in …)) and not a method of a trait impl /
+    trait declaration: every caller is in this crate's source"""
+    line_start = src.rfind("\n", 0, fn_start) + 1
+    prefix = src[max(line_start - 200, 0):fn_start]
+    vis = re.search(r"\bpub(\s*\([^)]*\))?\s+(?:(?:const|async|unsafe|extern\s+\"[^\"]*\")\s+)*$", prefix)
+    if vis and not vis.group(1):
+        return False
+    # the innermost enclosing `impl … {` / `trait … {`
+    depth, j = 0, fn_start - 1
+    while j >= 0:
+        c = src[j]
+        if c == "}": depth += 1
+        elif c == "{":
+            if depth == 0:
+                head = src[max(0, src.rfind("}", 0, j), src.rfind(";", 0, j)) + 1:j]
+                if re.search(r"\btrait\s+\w+", head):
+                    return False
+                if re.search(r"\bimpl\b", head):
+                    return not re.search(r"\bfor\s+[\w:<]", re.sub(r"<[^<>]*>", "", head))
+                return True
+            depth -= 1
+        j -= 1
+    return True
+
+
+def through_call_sites(ident, lb, ctx, depth):
+    """leaves for a PARAMETER `ident` of the enclosing function, from the arguments at its call sites in the crate
+    (direct calls `f(..)`, `self.f(..)`, `Self::f(..)`, `path::f(..)` and point-free uses `.map_err(f)`); None when
+    `ident` is not a parameter, the function can be called from outside the crate, or no call site is found."""
+    src, fn_start, fn_name, fn_src = ctx.get("src"), ctx.get("fn_start"), ctx.get("fn"), ctx.get("fn_src")
+    if src is None or fn_start is None or not fn_name or not fn_src or depth > 4:
+        return None
+    hdr_end = fn_header_end(fn_src)
+    if len(lb) < 3 or lb[2] >= hdr_end:
+        return None
+    if not callable_only_in_crate(src, fn_start):
+        return None
+    if fn_name in ctx.get("visiting", ()):
+        return None
+    po = fn_src.find("(", fn_src.find(fn_name))
+    pc = match_close(fn_src, po)
+    params = [re.sub(r"#\[[^\]]*\]\s*", "", p_).strip() for p_ in split_generic_aware(fn_src[po + 1:pc])]
+    has_self = bool(params and re.fullmatch(r"&?\s*('\w+\s+)?(mut\s+)?self(\s*:.*)?", params[0], re.S))
+    names = [re.match(r"(?:mut\s+)?(\w+)\s*:", p_).group(1) if re.match(r"(?:mut\s+)?(\w+)\s*:", p_) else None for p_ in params[1 if has_self else 0:]]
+    if ident not in names:
+        return None
+    idx = names.index(ident)
+    crate_prefix = "/".join(ctx["file"].split("/")[:2]) + "/"
+    leaves, found = [], 0
+    for crate, rel, rel_src, other in sources(ctx["repo"]):
+        if not rel.startswith(crate_prefix):
+            continue
+        for m in re.finditer(r"(?<![\w])(?:(self\s*\.\s*)|(?:[A-Za-z_]\w*\s*::\s*)*)" + re.escape(fn_name) + r"\s*(?:::\s*<[^<>()]*>\s*)?\(", other):
+            if re.search(r"\bfn\s+$", other[max(0, m.start() - 6):m.start()]) or (m.start() and other[m.start() - 1] == "."):
+                continue
+            if bool(m.group(1)) != has_self and not re.match(r"Self\s*::", other[m.start():m.end()]):
+                continue
+            cl = match_close(other, m.end() - 1)
+            args = split_top(other[m.end():cl])
+            if len(args) != len(names):
+                continue
+            fn = enclosing_fn(other, m.start())
+            if fn is None:
+                continue
+            try:
+                body_end = match_close(other, fn[2], "{", "}")
+            except Missing:
+                continue
+            cctx = dict(repo=ctx["repo"], file=rel, enums=ctx.get("enums", {}), fn=fn[3], fn_src=other[fn[0]:body_end + 1],
+                        pos=m.start() - fn[0], src=other, fn_start=fn[0], visiting=tuple(ctx.get("visiting", ())) + (fn_name,))
+            found += 1
+            leaves += classify(args[idx], cctx, depth + 1)
+        # point-free: `.map_err(f)` hands the error of the receiver, `.map(f)` an element of it
+        if len(names) == 1:
+            for m in re.finditer(r"\.\s*(\w+)\s*\(\s*(?:Self\s*::\s*|self\s*\.\s*|(?:[a-z_]\w*\s*::\s*)*)" + re.escape(fn_name) + r"\s*\)", other):
+                found += 1
+                if re.fullmatch(ERR_ADAPTORS, m.group(1)):
+                    used("identifier bound by Err(_) / map_err closure → errAny (emitted as errMdk)")
+                    leaves.append(dict(expr=f".{m.group(1)}({fn_name})", cls="errAny", why="error of the receiver, handed point-free"))
+                else:
+                    fn = enclosing_fn(other, m.start())
+                    st = chain_start(other, m.start())
+                    if fn is None or not other[st:m.start()].strip():
+                        leaves.append(dict(expr=f".{m.group(1)}({fn_name})", cls="unknown", why="point-free use could not be traced"))
+                        continue
+                    body_end = match_close(other, fn[2], "{", "}")
+                    cctx = dict(repo=ctx["repo"], file=rel, enums=ctx.get("enums", {}), fn=fn[3], fn_src=other[fn[0]:body_end + 1],
+                                pos=m.start() - fn[0], src=other, fn_start=fn[0], visiting=tuple(ctx.get("visiting", ())) + (fn_name,))
+                    leaves += classify(other[st:m.start()], cctx, depth + 1)
+    if not found:
+        return None
+    # every textual use of the name in the crate must have been analysed above; a use of another shape (a call on a
+    # receiver other than self, the function handed on as a value, a different number of arguments) keeps `unknown`
+    uses = 0
+    for crate, rel, rel_src, other in sources(ctx["repo"]):
+        if rel.startswith(crate_prefix):
+            other = re.sub(r"\buse\s[^;]*;", lambda mm: " " * len(mm.group(0)), other)
+            uses += len([1 for m in re.finditer(r"(?<![\w])" + re.escape(fn_name) + r"(?![\w])", other)
+                         if not re.search(r"\bfn\s+$", other[max(0, m.start() - 6):m.start()])])
+    if uses > found:
+        leaves.append(dict(expr=fn_name, cls="unknown", why=f"{uses - found} use(s) of {fn_name} in the crate could not be analysed as call sites"))
+    used("parameter of a crate-private fn → the classes of the arguments at its call sites")
+    res, seen = [], set()
+    for l in leaves:
+        c = {"errAny": "errMdk"}.get(l["cls"], l["cls"])
+        if c not in seen:
+            seen.add(c)
+            res.append(dict(l, expr=f"{ident} ← {l['expr']}"[:90], why=f"argument of a call of {fn_name}: " + l["why"]))
+    return res
+
+
 def classify(expr, ctx, depth=0):
     """→ list of leaves dict(expr, cls, why); a compound expression (format!, wrappers, resolved let) is
        expanded into the leaves it renders"""
     e = strip_expr(expr)
     leaf = lambda cls, why: [dict(expr=e[:90], cls=cls, why=why)]
-    if depth > 6:
+    if depth > 16:
         return leaf("unknown", "resolution too deep")
     # ---- literals and constants
     if str_lit(e) is not None or re.fullmatch(r"-?[0-9][0-9_]*(\.[0-9]+)?(usize|u\d+|i\d+|f\d+)?", e) or e in ("true", "false"):
@@ -489,7 +745,7 @@ def classify(expr, ctx, depth=0):
             if re.search(guard, ctx.get("fn_src", "")):
                 used(f"site rule {suffix}::{fn or '*'} `{ex}` → {cls}: {why}")
                 return leaf(cls, "site rule: " + why)
-            return leaf("unknown", f"site rule guard no longer matches ({guard})")
+            # the guard no longer matches: the rule is void; the generic rules below decide (else `unknown`)
     # ---- counts / boolean tests / integer accessors (even of sensitive containers)
     if re.search(r"\.(len|count)\(\)(\s+as\s+\w+)?$", e):
         used(".len() / .count() → count")
@@ -502,7 +758,7 @@ def classify(expr, ctx, depth=0):
         return leaf("number", "boolean test")
     # ---- calls whose declared return type decides
     m = re.match(r"^(?:.*\.|(?:\w+::)*)?([a-z_][a-z0-9_]*)\((.*)\)$", e, re.S)
-    if m and ctx.get("repo"):
+    if m and ctx.get("repo") and not re.fullmatch(WRAPPER_METHODS, m.group(1)):
         rets = fn_return_types(ctx["repo"], m.group(1))
         if rets:
             cs = {type_class(r, ctx)[0] for r in rets}
@@ -540,6 +796,35 @@ def classify(expr, ctx, depth=0):
     m = re.match(r"^(.*)\.\s*(unwrap_or|unwrap_or_else|map|expect|unwrap|as_deref|join)\((.*)\)$", e, re.S)
     if m and m.group(1).strip() and not re.search(r"\|\s*\w+\s*\|", m.group(3)):
         return classify(m.group(1), ctx, depth + 1)
+    # a part / an element / a sub-slice of a value has the class of the value: adaptors that keep the elements
+    # (closures allowed: they select, they do not transform), indexing, splitting a string, `?`
+    m = re.match(r"^(.*)\.\s*(find|filter|skip_while|take_while|next|first|last|get|get_mut|peek|peekable|rev|skip|take|step_by|cloned|copied|"
+                 r"into_iter|iter_mut|values|keys|min|max|collect|split|splitn|rsplit|split_once|rsplit_once|split_whitespace|lines|chars|trim_start|trim_end|"
+                 r"trim_matches|strip_prefix|strip_suffix|ok|flatten|as_mut|borrow|deref|to_vec|ok_or|ok_or_else)\s*(?:::\s*<[^()]*>\s*)?\((.*)\)\??$", e, re.S)
+    if m and m.group(1).strip():
+        try:
+            op = e.rindex("(", 0, len(e)) if False else None
+        except ValueError:
+            op = None
+        # the argument list must be the LAST bracket group of the expression
+        k = len(e) - (2 if e.endswith("?") else 1)
+        if e[k] == ")":
+            depth_, j = 0, k
+            while j >= 0:
+                if e[j] == ")": depth_ += 1
+                elif e[j] == "(":
+                    depth_ -= 1
+                    if depth_ == 0: break
+                j -= 1
+            head_ = e[:j].rstrip()
+            mm = re.match(r"^(.*)\.\s*\w+\s*(?:::\s*<[^()]*>\s*)?$", head_, re.S)
+            if mm and mm.group(1).strip():
+                return classify(mm.group(1), ctx, depth + 1)
+    m = re.match(r"^(.*\S)\s*\[[^\[\]]*\]$", e, re.S)
+    if m and not re.match(r"^[\[\s]", m.group(1)[-1:]):
+        return classify(m.group(1), ctx, depth + 1)
+    if e.endswith("?") and len(e) > 1:
+        return classify(e[:-1], ctx, depth + 1)
     # ---- public field names
     for pat, cls, why in PUBLIC_NAME_RULES:
         if re.search(pat, e) and not re.search(r"[(\[]", e):
@@ -554,6 +839,11 @@ def classify(expr, ctx, depth=0):
         if lb:
             if lb[0] == "type":
                 cls, why = type_class(lb[1], ctx)
+                if cls in ("text?", "unknown") or (cls == "errOpaque" and why.startswith("generic error parameter")):
+                    # a parameter of a function that only this crate can call: what do the call sites pass?
+                    via = through_call_sites(e, lb, ctx, depth)
+                    if via is not None:
+                        return via
                 if cls == "text?":
                     return leaf("unknown", f"string parameter `{e}` ({lb[1]}) without a rule")
                 return leaf(cls, why)
@@ -598,7 +888,7 @@ def parse_tracing_args(argsrc):
             if m.group(1) == "target":
                 target = str_lit(m.group(2))
                 if target is None:
-                    target = "<dynamic>"
+                    target = "<dynamic>:" + m.group(2).strip()
             continue
         if fmt is None:
             s = str_lit(p)
@@ -645,6 +935,30 @@ def module_target(crate, rel_src):
     return "::".join([c] + p)
 
 
+_CONSTS = {}
+
+def const_string(repo, crate, rel, expr):
+    """value of the string const / static named by `expr` (`X`, `Self::X`, `module::X`): same file first, then the crate;
+    aliases followed (tools/rsnorm.py); None when it is not one"""
+    m = re.fullmatch(r"(?:\w+\s*::\s*)*([A-Z][A-Z0-9_]*)", expr.strip())
+    if not m:
+        return None
+    sys.path.insert(0, HERE)
+    import rsnorm
+    key = (repo, crate)
+    if key not in _CONSTS:
+        per_file, wide = {}, {}
+        for c, r, _, src in sources(repo):
+            if c == crate:
+                per_file[r] = rsnorm.const_defs(src)
+                for k, v in per_file[r].items():
+                    wide.setdefault(k, []).append(v)
+        _CONSTS[key] = (per_file, wide)
+    per_file, wide = _CONSTS[key]
+    lit, _ = rsnorm.resolve_consts(per_file.get(rel, {}), wide)
+    return str_lit(lit[m.group(1)]) if m.group(1) in lit else None
+
+
 def extract_log_sites(repo, enums):
     sites = []
     for crate, rel, rel_src, src in sources(repo):
@@ -660,7 +974,7 @@ def extract_log_sites(repo, enums):
             args = parse_tracing_args(src[op + 1:cl])
             fn = enclosing_fn(src, m.start())
             ctx = dict(repo=repo, file=rel, enums=enums, fn=fn[3] if fn else None,
-                       fn_src=src[fn[0]:cl] if fn else "", pos=(m.start() - fn[0]) if fn else 0)
+                       fn_src=src[fn[0]:cl] if fn else "", pos=(m.start() - fn[0]) if fn else 0, src=src, fn_start=fn[0] if fn else None)
             rendered = []
             for name, sigil, expr in args["fields"]:
                 for lf in classify(expr, ctx):
@@ -668,6 +982,9 @@ def extract_log_sites(repo, enums):
             for expr, spec in resolve_fmt(args["fmt"], args["fmt_args"]):
                 for lf in classify(expr, ctx):
                     rendered.append(dict(lf, how="{" + (":" + spec if spec else "") + "}", field=None))
+            if (args["target"] or "").startswith("<dynamic>:"):
+                # a target given by a string constant (of this file, else of the crate) is that string
+                args["target"] = const_string(repo, crate, rel, args["target"][len("<dynamic>:"):]) or "<dynamic>"
             sites.append(dict(kind="log", file=rel, line=line_of(src, m.start()), end_line=line_of(src, cl), level=m.group(2),
                               target=args["target"] or module_target(crate, rel_src),
                               fmt=args["fmt"] or "", args=rendered, fn=fn[3] if fn else None))
@@ -917,7 +1234,7 @@ def extract_ctor_sites(repo, text_variants, enums, rendered):
             decl = cands or text_variants[variant]
             fn = enclosing_fn(src, m.start())
             ctx = dict(repo=repo, file=rel, enums=enums, fn=fn[3] if fn else None,
-                       fn_src=src[fn[0]:fn[0] + len(src)] if fn else "", pos=(m.start() - fn[0]) if fn else 0)
+                       fn_src=src[fn[0]:fn[0] + len(src)] if fn else "", pos=(m.start() - fn[0]) if fn else 0, src=src, fn_start=fn[0] if fn else None)
             if fn:
                 try:
                     ctx["fn_src"] = src[fn[0]:match_close(src, fn[2], "{", "}") + 1]
@@ -1057,6 +1374,10 @@ def extract_impls(repo, types, enums, rendered):
         for m in re.finditer(r"\b(write|writeln)\s*!\s*\(", body):
             cl = match_close(body, m.end() - 1)
             for lf in classify(body[m.start():cl + 1], dict(ctx, pos=m.start())):
+                args.append(dict(lf, how="write!", field=None))
+        for m in re.finditer(r"\b\w+\s*\.\s*(?:write_str|pad)\s*\(", body):
+            cl = match_close(body, m.end() - 1)
+            for lf in classify(body[m.end():cl], dict(ctx, pos=m.start())):
                 args.append(dict(lf, how="write!", field=None))
         for m in re.finditer(r"\.\s*field\s*\(", body):
             cl = match_close(body, m.end() - 1)
